@@ -68,6 +68,10 @@ mod keys;
 #[cfg(all(ruma_verif, feature = "ring-compat"))]
 #[doc(hidden)]
 pub use keys::verif_compatible_document;
+
+#[cfg(ruma_verif)]
+#[doc(hidden)]
+pub use functions::verif_servers_to_check_signatures;
 mod signatures;
 mod verification;
 
